@@ -97,7 +97,7 @@ pub fn check(case: &C08Case, st: &mut Stats) -> Verdict {
         (SpecOutcome::Claims(v), Out::Ok(c)) => {
             st.label("outcome=Claims/Ok");
             st.nontrivial();
-            if *v != c {
+            if crate::exact::differs(v, &c) {
                 return Err(Failure::new(
                     "spec:different-claims",
                     format!("the verifier returned claims other than the specification's processing result\n  specification: {}\n  verifier:      {}\n{}", v, c, show()),
